@@ -113,9 +113,9 @@ func c30Catch(f func()) (panicked bool, site, msg string) {
 	return false, "", ""
 }
 
-func c30Ok(v V) V        { return VL{VS("ok"), v} }
-func c30Err(c string) V  { return VL{VS("err"), VS(c)} }
-func c30PanicV() V       { return VL{VS("panic")} }
+func c30Ok(v V) V       { return VL{VS("ok"), v} }
+func c30Err(c string) V { return VL{VS("err"), VS(c)} }
+func c30PanicV() V      { return VL{VS("panic")} }
 func c30VStrs(xs []string) V {
 	out := make(VL, len(xs))
 	for i, x := range xs {
